@@ -8,6 +8,7 @@ import (
 
 	"pmc/internal/comp"
 	"pmc/internal/harness"
+	"pmc/internal/model"
 )
 
 // C16 — line markers are transparent and name the right source line.
@@ -321,6 +322,49 @@ func runC16(tier string) int {
 			r.NotExhaustive("layouts of program " + prog.name + " not completed")
 		}
 	}
+	// transparency over the program families of C01 / C03 / C04 (every control-flow shape up to the engine bounds, the
+	// dead-label, sequence and scaled programs): -lm output minus its marker lines == -lm=false output, each marker
+	// names the path and a line inside the file, no markers without a path; optimize on and off
+	plans, swN := enginePlans(tier)
+	forEachEngineProgram(r, plans, swN, func(w int, p engineProgram) {
+		src := model.Print([]*model.Script{p.Script})
+		nLines := strings.Count(src, "\n")
+		for _, opt := range []bool{true, false} {
+			on := comp.Compile(src, comp.Opts{Optimize: opt, LineMarkers: true, Path: "fam.pory"})
+			off := comp.Compile(src, comp.Opts{Optimize: opt})
+			r.Add("evaluations", 1)
+			r.Add("family_programs_x_optimize", 1)
+			if on.Panic+off.Panic != "" || (on.Err == nil) != (off.Err == nil) {
+				r.Report(harness.Violation{Sig: "C16:family:accept-differs", Summary: fmt.Sprintf("%s: line markers change acceptance: %v / %v %s", p.Desc, on.Err, off.Err, firstLine(on.Panic+off.Panic)), Replay: map[string]interface{}{"source": src, "optimize": opt}})
+				continue
+			}
+			if on.Err != nil {
+				continue
+			}
+			r.Add("nontrivial", 1)
+			stripped, n := stripMarkers(on.Out)
+			r.Add("markers_checked", int64(n))
+			if stripped != off.Out {
+				s2 := src
+				r.Report(harness.Violation{Sig: "C16:family:not-transparent", Summary: fmt.Sprintf("%s optimize=%v: removing the marker lines from the -lm output does not give the -lm=false output: %s\n  source: %q", p.Desc, opt, firstDiff(stripped, off.Out), clip(src, 500)), Replay: map[string]interface{}{"source": src, "optimize": opt, "output": on.Out, "output_without_markers": off.Out},
+					Recheck: func() bool {
+						a, _ := stripMarkers(comp.Compile(s2, comp.Opts{Optimize: opt, LineMarkers: true, Path: "fam.pory"}).Out)
+						return a != comp.Compile(s2, comp.Opts{Optimize: opt}).Out
+					}})
+				continue
+			}
+			for _, l := range strings.Split(on.Out, "\n") {
+				if m := markerRe.FindStringSubmatch(l); m != nil {
+					var ln int
+					fmt.Sscan(m[1], &ln)
+					if m[2] != "fam.pory" || ln < 1 || ln > nLines {
+						r.Report(harness.Violation{Sig: "C16:family:marker-range", Summary: fmt.Sprintf("%s: marker %q does not name the input file and a line in 1..%d", p.Desc, l, nLines), Replay: map[string]interface{}{"source": src, "optimize": opt, "output": on.Out}})
+						break
+					}
+				}
+			}
+		}
+	})
 	// the size dimension: constructs after K lines, for every K <= 300 and around every power of two up to 2^17
 	var ks []int
 	for k := 0; k <= 300; k++ {
@@ -382,7 +426,7 @@ func runC16(tier string) int {
 	r.Assume("'the line on which the construct was written' is read as any line of the construct's source extent: the command, the label, the operand test incl. its comparison, the switch header, the case, the map-script entry head, the step / item, the whole text/movement/mart statement for the marker at its label, the enclosing command for hoisted text and moves() data; a raw line's own source line; in addition the marker in front of the first line of a multi-line text must not name a line after the one its first part is written on (the following lines of the text are counted from it)",
 		"string literals and raw blocks are single tokens (their inner layout is fixed)")
 	return r.Finish(r.Get("evaluations"), r.Get("nontrivial"),
-		"8 corpus programs covering every marker-emitting construct with unique names (incl. raw blocks whose lines hold a lone carriage return, a CRLF line end and a multi-byte character) x {default, one token per line, all on one line} + every layout obtained from the default by inserting <= k extras (line break, blank line, '#' comment, '//' comment line) at any token gaps; each layout compiled with lm on / off / on without a path; plus one program placed after K blank lines for every K <= 300 (thorough 3000) and around every power of two up to 2^17 (thorough 2^20); non-trivial = the source has >= 2 lines")
+		"8 corpus programs covering every marker-emitting construct with unique names (incl. raw blocks whose lines hold a lone carriage return, a CRLF line end and a multi-byte character) x {default, one token per line, all on one line} + every layout obtained from the default by inserting <= k extras (line break, blank line, '#' comment, '//' comment line) at any token gaps; each layout compiled with lm on / off / on without a path; plus transparency and marker range over every program of the control-flow families (C01 / C03 / C04 bounds: all shapes, dead-label, sequence and scaled programs) with optimize on and off; plus one program placed after K blank lines for every K <= 300 (thorough 3000) and around every power of two up to 2^17 (thorough 2^20); non-trivial = the source has >= 2 lines")
 }
 
 func tagKind(tag string) string { return strings.TrimRight(tag, "0123456789") }
